@@ -48,16 +48,18 @@ type desc struct {
 type runner struct {
 	c    *reg.Ctx
 	seen map[string]bool
+	dead bool // a parse did not return or panicked: stop generating
 }
 
 func (rn *runner) emit(stream, s string) bool {
-	if rn.seen[s] {
+	if rn.seen[s] || rn.dead {
 		return false
 	}
 	rn.seen[s] = true
 	c := rn.c
 	_, full, bad := c01.SafeParse(s)
 	if bad != "" {
+		rn.dead = true
 		c.Emit(reg.Case{Desc: desc{Src: s, Stream: stream}, Key: fmt.Sprintf("%q", s), Nontrivial: true, Class: "crash", Direct: bad})
 		return false
 	}
@@ -73,6 +75,7 @@ func (rn *runner) emit(stream, s string) bool {
 		p := s[:i]
 		_, errs, bad := c01.SafeParse(p)
 		if bad != "" {
+			rn.dead = true
 			c.Emit(reg.Case{Desc: desc{Src: p, Stream: stream}, Key: fmt.Sprintf("%q", p), Nontrivial: true, Class: "crash", Direct: bad})
 			return false
 		}
